@@ -75,7 +75,8 @@ impl<BS: BlockSizes> BlockCipherEncClosure for Closure<'_, BS> {
             let (last, rest) = blocks.split_last_mut().unwrap();
             let (penultimate, _) = rest.split_last_mut().unwrap();
             core::mem::swap(penultimate, last);
-        } else {
+        } else if !tail.is_empty() {
+            // (a one-block message is plain CBC: nothing to exchange or steal)
             let mut block = Block::<B>::default();
             block[..tail.len()].copy_from_slice(tail.get_in());
             xor(&mut block, &iv);
@@ -95,6 +96,12 @@ impl<BS: BlockSizes> BlockCipherDecClosure for Closure<'_, BS> {
         let Self { mut iv, buf } = self;
 
         let bs = B::BlockSize::USIZE;
+        if buf.len() == bs {
+            // a one-block message is plain CBC: nothing was exchanged or stolen
+            let (blocks, _) = buf.into_chunks();
+            cbc_dec(cipher, &mut iv, blocks);
+            return;
+        }
         let blocks_len = buf.len().div_ceil(bs);
         let main_blocks = blocks_len.saturating_sub(2);
 
